@@ -7,7 +7,8 @@ tokens:  `vm=<view merge>`  `+<dt>`
          `<t>:m:<s|a>:<n|s|a>[:<name>:<logger>:<trace>]`   held = ctx.scope(..)
          `<t>:n`  enter held   `<t>:x`  leave   `<t>:X`  leave by exception
          `<t>:r:<ty>:<merge>:<val>`   `<t>:l:<d|i|w|e>:<0|1>:<fmt>:<args>`
-         `<t>:s` ctx.spawn   `<t>:c` create_task   `<t>:e` task ends
+         `<t>:s` ctx.spawn   `<t>:c` create_task   `<t>:e` task ends   `<t>:k` task cancelled from outside
+         block kind `d` = async with a disposable whose `__aexit__` raises
 strings: `_` stands for a space; args: comma separated `i<nat>` / `s<chars>`.
 Every case is followed by a fixed final phase: the clock advances by 5. -/
 namespace Driver.ScopeRun
@@ -55,8 +56,9 @@ def parseArgs (s : String) : Option (List Logs.Arg) :=
 def parseLevel : String → Option Logs.Level
   | "d" => some .debug | "i" => some .info | "w" => some .warning | "e" => some .error | _ => none
 
-def parseKind : String → Option Bool
-  | "s" => some false | "a" => some true | _ => none
+/-- block kind: sync, async, async with a disposable whose cleanup raises → (isAsync, disp) -/
+def parseKind : String → Option (Bool × Bool)
+  | "s" => some (false, false) | "a" => some (true, false) | "d" => some (true, true) | _ => none
 
 def parseCb : String → Option Cb
   | "n" => some .none | "s" => some .sync | "a" => some .async | _ => none
@@ -76,8 +78,12 @@ def parseTok (tok : String) : Option (Ev × Option Cb) :=
   | t :: op :: rest => do
     let t ← t.toNat?
     match op, rest with
-    | "o", k :: cb :: sp => do pure (.openScope t (← parseKind k) (← parseSpec sp), some (← parseCb cb))
-    | "m", k :: cb :: sp => do pure (.make t (← parseKind k) (← parseSpec sp), some (← parseCb cb))
+    | "o", k :: cb :: sp => do
+      let (a, d) ← parseKind k
+      pure (.openScope t a d (← parseSpec sp), some (← parseCb cb))
+    | "m", k :: cb :: sp => do
+      let (a, d) ← parseKind k
+      pure (.make t a d (← parseSpec sp), some (← parseCb cb))
     | "n", [] => pure (.enter t, none)
     | "x", [] => pure (.exit t false, none)
     | "X", [] => pure (.exit t true, none)
@@ -90,6 +96,7 @@ def parseTok (tok : String) : Option (Ev × Option Cb) :=
     | "s", [] => pure (.spawn t true, none)
     | "c", [] => pure (.spawn t false, none)
     | "e", [] => pure (.finishTask t, none)
+    | "k", [] => pure (.cancel t, none)
     | _, _ => none
   | _ => none
 
